@@ -127,6 +127,13 @@ def value_records(prog, f, x, kinds, depth=3):
     """Object kinds (records of `kinds`, public twins normalised) the pointer value x may designate in f: by its
     static type (variable, member, iv_container_of); for an untyped (`void *`) local or parameter by what flows
     into it: the definitions of the local, and for a parameter of a static helper the arguments of every caller."""
+    y = x
+    while isinstance(y, dict) and y.get('k') in ('load', 'cast', 'stmtexpr') and 'e' in y:
+        # pointer arithmetic cast to an object type (`(T *)((char *)node - offsetof(T, m))`): a T by its type
+        if y.get('k') == 'cast' and y.get('record') in kinds and str(y.get('to', '')).rstrip().endswith('*') \
+                and isinstance(strip(y['e']), dict) and strip(y['e']).get('k') == 'bin':
+            return {norm_rec(y['record'])}
+        y = y['e']
     x = strip(x)
     if not isinstance(x, dict):
         return set()
@@ -179,6 +186,208 @@ def points_to_local(prog, f, p, depth=3):
         i = _param_index(f, p['name'])
         return bool(sites) and all(len(e.get('args', [])) > i and points_to_local(prog, c, e['args'][i], depth - 1) for (c, e) in sites)
     return bool(ds)
+
+
+def pointee_lvalue(prog, f, p, depth=3):
+    """The member lvalue `X->m` / `X.m` that the pointer p of f always designates: p is `&X->m`, a local all of whose
+    definitions are addresses of one and the same member (`slot = &st->marker`), or a parameter of a static helper
+    that is given such an address at every call site.  None for anything else (an array / heap slot, a pointer that is
+    stepped, a pointer read from memory): `*p = v` then is a store into that member, whatever p is called."""
+    y = strip(p)
+    if not isinstance(y, dict):
+        return None
+    if y.get('k') == 'addr':
+        z = strip_load(y['e'])
+        return z if isinstance(z, dict) and z.get('k') == 'member' else None
+    if not is_localvar(y) or depth <= 0:
+        return None
+    cands = []
+    for r in local_defs(f).get(y['name'], []):
+        t = pointee_lvalue(prog, f, r, depth - 1) if r is not None else None
+        if t is None:
+            return None
+        cands.append(t)
+    i = _param_index(f, y['name']) if y.get('vk') == 'param' else None
+    if i is not None:
+        if not f.static or f.q in roles.address_taken(prog):
+            return None
+        sites = _call_sites(prog, f)
+        if not sites:
+            return None
+        for (c, e) in sites:
+            t = pointee_lvalue(prog, c, e['args'][i], depth - 1) if len(e.get('args', [])) > i else None
+            if t is None:
+                return None
+            cands.append(t)
+    if not cands or len({last_member(t) for t in cands}) != 1:
+        return None
+    return cands[0]
+
+
+# --------------------------------------------------------------------------
+# open-coded iv_container_of
+# --------------------------------------------------------------------------
+
+def _pointee_record(p):
+    y = strip(p)
+    if isinstance(y, dict):
+        if y.get('k') == 'var' and y.get('ptr'):
+            return y.get('record')
+        if y.get('k') == 'member' and y.get('tptr'):
+            return y.get('trecord')
+        if y.get('k') == 'addr':
+            z = strip(y['e'])
+            if isinstance(z, dict) and z.get('k') == 'member' and not z.get('tptr'):
+                return z.get('trecord')
+            if isinstance(z, dict) and z.get('k') == 'var' and not z.get('ptr'):
+                return z.get('record')
+    return None
+
+
+def as_container_of(x, records):
+    """`(T *)((char *)P - C)` where C is the offset of a member m of T that has the type P points to (the expansion of
+    offsetof(T, m) is folded to C): the node iv_container_of(P, T, m) builds, or None.  Decided from the record layout,
+    not from the spelling."""
+    if not (isinstance(x, dict) and x.get('k') == 'cast' and x.get('record') in records
+            and str(x.get('to', '')).rstrip().endswith('*')):
+        return None
+    b = strip(x['e'])
+    if not (isinstance(b, dict) and b.get('k') == 'bin' and b.get('op') == '-'):
+        return None
+    c = const_of(b['r'])
+    if c is None or c < 0:
+        return None
+    P = b['l']
+    while isinstance(P, dict) and P.get('k') == 'cast' and 'e' in P:
+        P = P['e']
+    if not isinstance(P, dict) or const_of(P) is not None:
+        return None
+    prec = _pointee_record(P)
+    flds = [fl for fl in records[x['record']].get('fields', []) if fl.get('offset') == c and fl.get('record') and not fl.get('ptr')]
+    if prec is not None:
+        flds = [fl for fl in flds if fl['record'] == prec]
+    if len(flds) != 1:
+        return None
+    return {'k': 'container_of', 'record': x['record'], 'member': flds[0]['name'], 'e': P}
+
+
+def _lift_container_of(g, records):
+    """rewrite every open-coded iv_container_of of g (events and branch conditions) into the node the macro gives"""
+    def r_(nd):
+        if nd.get('k') == 'cast' and nd.get('record'):
+            c = as_container_of(nd, records)
+            if c is not None:
+                return dict(c, e=subst(c['e'], r_))
+        return None
+
+    def has(v):
+        return any(y.get('k') == 'cast' and y.get('record') and isinstance(strip(y.get('e')), dict)
+                   and strip(y['e']).get('k') == 'bin' for y in walk(v))
+    n = 0
+    for b, blk in g.blocks.items():
+        out = []
+        for e in blk.events:
+            if has(e):
+                e2 = {}
+                for k_, v in e.items():
+                    e2[k_] = subst(v, r_) if isinstance(v, (dict, list)) and k_ != 'chain' else v
+                if e2 != e:
+                    n += 1
+                e = e2
+            out.append(e)
+        blk.events = out
+        if blk.term and blk.term.get('cond') is not None and has(blk.term['cond']):
+            blk.term = dict(blk.term, cond=subst(blk.term['cond'], r_))
+    return n
+
+
+# --------------------------------------------------------------------------
+# locals that cache a field
+# --------------------------------------------------------------------------
+
+LIST_PRIMITIVES = ('iv_list_del', 'iv_list_del_init', 'iv_list_add', 'iv_list_add_tail', 'INIT_IV_LIST_HEAD',
+                   '__iv_list_steal_elements', 'iv_list_splice', 'iv_list_splice_tail', 'iv_list_splice_init',
+                   'iv_list_splice_tail_init')
+
+
+def field_caches(g):
+    """Forward must-analysis: facts (x, (record, field), bases) = "the local x holds the value that the field
+    record.field of the object held in the locals `bases` has *now*".  Generated by `x = O->f` (and copies of such a
+    local); killed by a definition of x or of a base, by a store to that field through any pointer (may alias), by a
+    store through a bare pointer, by a user callback, a lock operation (the field may be shared) or any call that is
+    not known to leave object fields alone; a list primitive only writes iv_list_head fields.
+    Returns the event_in map ((block, len(events)) is the state at the branch)."""
+    c = _cache_get(g, '_h01_fc')
+    if c is not None:
+        return c
+
+    def drop_var(S, x):
+        return frozenset(f for f in S if f[0] != x and x not in f[2])
+
+    def tr(e, S):
+        ev = e['ev']
+        if ev == 'decl':
+            return drop_var(S, e['name']) if S else S
+        if ev == 'store':
+            l = strip(e['lhs'])
+            if isinstance(l, dict) and l.get('k') == 'var':
+                x = l['name']
+                S0 = S
+                S = drop_var(S, x)
+                if e.get('op') != '=' or 'rhs' not in e or l.get('vk') not in ('local', 'param'):
+                    return S
+                r = strip(e['rhs'])
+                if isinstance(r, dict) and r.get('k') == 'member' and not any(y.get('k') in ('call', 'assign', 'incdec') for y in walk(r)):
+                    bases = frozenset(base_var_names(r))
+                    if x not in bases and not any(y.get('k') in ('deref', 'index') for y in walk(r)):
+                        S = S | {(x, (r.get('record'), r['field']), bases)}
+                elif is_localvar(r) and r['name'] != x:
+                    S = S | frozenset((x, f[1], f[2]) for f in S0 if f[0] == r['name'] and x not in f[2])
+                return S
+            if not S:
+                return S
+            kills = set(lvalue_steps(e['lhs']))
+            lm = last_member(e['lhs'])
+            if lm:
+                kills.add(lm)
+            if not kills:
+                return frozenset()          # *p = v, a[i] = v: may be any field
+            return frozenset(f for f in S if f[1] not in kills)
+        if ev == 'call':
+            if not S:
+                return S
+            if 'fnexpr' in e:
+                return frozenset()
+            nm = e.get('callee')
+            if nm in LIST_PRIMITIVES:
+                S = frozenset(f for f in S if f[1][0] != 'iv_list_head')
+            elif nm not in PURE_CALLS and nm not in ('free', 'close', 'abort'):
+                return frozenset()
+            for a in e.get('args', []):
+                a = strip(a)
+                if isinstance(a, dict) and a.get('k') == 'addr':
+                    v = strip(a['e'])
+                    if isinstance(v, dict) and v.get('k') == 'var':
+                        S = drop_var(S, v['name'])
+            return S
+        return S
+    _, ev_in = forward(g, frozenset(), tr, lambda a, b: a & b)
+    return _cache_put(g, '_h01_fc', ev_in)
+
+
+def field_of(g, blk, x):
+    """((record, field), base locals) of the object field whose current value the operand x of blk's branch condition
+    is: a read of the field, or a local that caches it (field_caches); (None, set()) otherwise"""
+    lm = last_member(x)
+    if lm:
+        return lm, base_var_names(x)
+    names = var_names(x)
+    if names:
+        S = field_caches(g).get((blk.id, len(blk.events))) or ()
+        for f in sorted(S, key=lambda f: (f[0], str(f[1]))):
+            if f[0] in names:
+                return f[1], set(f[2])
+    return None, set()
 
 
 # --------------------------------------------------------------------------
@@ -560,6 +769,7 @@ def inlined(prog, f, **kw):
     key = (f.q, tuple(sorted(kw.items())))
     if key not in c:
         g = Inliner(prog, **kw).inline(f)
+        _lift_container_of(g, prog.records)
         _resolve_out_params(g)
         lowered = _lower_cond_stores(g)
         if _forward_temp_copies(g) and kw.get('prune'):
